@@ -2,7 +2,7 @@
 from .. import core, corpus, spec_iter, run_kani, vspec
 from .common import Unit
 
-TWIN = {'nth': 'twin_nth', 'next': 'twin_next', 'next_back': 'twin_next_back', 'size_hint': 'twin_size_hint',
+TWIN = {'nth_back': 'twin_nth_back', 'nth': 'twin_nth', 'next': 'twin_next', 'next_back': 'twin_next_back', 'size_hint': 'twin_size_hint',
         'len': 'twin_len', 'clone': 'twin_clone', 'iter': 'twin_iter', 'get': 'twin_get', 'COUNT': 'twin_iter',
         'vx_reach_iter': 'twin_iter'}
 
@@ -38,6 +38,8 @@ def replay_main(prog, history, op, n):
             L('        { let g = it.nth(%dusize); let e = m_nth(&mut m, %dusize); println!("%s nth(%d) = {:?} (expected {:?})", g, e); if g != e { bad = true; } }' % (arg, arg, tag, arg))
         elif kind == 'size_hint':
             L('        { let g = it.size_hint(); let e = (m.len(), Some(m.len())); println!("%s size_hint() = {:?} (expected {:?})", g, e); if g != e { bad = true; } }' % tag)
+        elif kind == 'nth_back':
+            L('        { let g = it.nth_back(%dusize); let e = { let k = %dusize; if k < m.len() { for _ in 0..k { m.pop_back(); } m.pop_back() } else { m.clear(); None } }; println!("%s nth_back(%d) = {:?} (expected {:?})", g, e); if g != e { bad = true; } }' % (arg, arg, tag, arg))
         elif kind == 'len':
             L('        { let g = it.len(); let e = m.len(); println!("%s len() = {:?} (expected {:?})", g, e); if g != e { bad = true; } }' % tag)
     for k, a in history:
@@ -84,6 +86,10 @@ class IterUnit(Unit):
         return progs
     def gen(self, ctx, prog):
         return spec_iter.gen(prog, ctx.pid)
+    def unplanned_overrides(self, ctx, prog, asm):
+        # anything the derive generates on the iterator type besides the functions under contract (e.g. an override of count / last /
+        # fold / advance_by) would replace a std default method the property relies on
+        return [d for d in asm.dropped if d.startswith(prog.name + 'Iter') and not d.endswith('::fmt')]
     def skip_verus(self, ctx, prog):
         if not prog.variants:
             return 'enum without variants (Verus: "datatype must have at least one non-recursive variant"); decided by the Kani twins'
@@ -92,7 +98,7 @@ class IterUnit(Unit):
     def kani_harnesses(self, ctx, prog):
         ops = spec_iter.OPS
         if ctx.pid == 'C04':
-            ops = [o for o in ops if o in ('next', 'next_back', 'iter', 'get')]
+            ops = [o for o in ops if o in ('next', 'next_back', 'iter', 'get', 'nth_back')]
         return [('twin_' + o, o) for o in ops]
     def twin_of(self, ctx, prog, fn):
         return TWIN.get(op_of(fn))
